@@ -57,7 +57,29 @@ def classify_consumption(f, sy, i, t):
     d = t["dest"]["l"]
     if d == 0:
         return ("return",)
-    uses = [u for u in uses_of_local(f, d) if u[0] != "discr"]
+    all_uses = uses_of_local(f, d)
+    uses = [u for u in all_uses if u[0] != "discr"]
+    # `match r { Err(e) => return Err(e), Ok(..) => .. }` / `if let Err(e) = r { return Err(e); }`: the hand-written `?`
+    discrs = [u for u in all_uses if u[0] == "discr"]
+    if len(discrs) == 1 and all(u[0] == "stmt" for u in uses):
+        db = discrs[0][1]
+        sw = f.blocks[db]["term"]
+        if sw["t"] == "switch":
+            err_arm = [a[1] for a in sw["arms"] if a[0] == "1"] or ([sw["otherwise"]] if [a[0] for a in sw["arms"]] == ["0"] else [])
+            ok_arm = [a[1] for a in sw["arms"] if a[0] == "0"] or ([sw["otherwise"]] if [a[0] for a in sw["arms"]] == ["1"] else [])
+            if err_arm and ok_arm:
+                good = False
+                for b in f.reach_from(err_arm[0]):
+                    for st in f.blocks[b]["stmts"]:
+                        if st["s"] == "assign" and st["lhs"]["l"] == 0 and st["rv"]["r"] == "agg" and st["rv"]["kind"].get("variant") == "Err":
+                            e = sy.operand(st["rv"]["ops"][0])
+                            r, names = fpath(e)
+                            if r[0] == "call" and r[3] == i and names == ("<Err>", "0"):
+                                good = True
+                # the error payload is used nowhere else (every statement use lies on the Err arm)
+                on_err = f.reach_from(err_arm[0]) - f.reach_from(ok_arm[0])
+                if good and all(u[1] in on_err or u[1] in f.reach_from(err_arm[0]) for u in uses):
+                    return ("try", err_arm[0], ok_arm[0], None)
     if len(uses) != 1:
         return ("bad", "result of %s is used %d times (dropped, inspected or duplicated)" % (callee_of(t).split("::")[-1], len(uses)))
     kind, b, payload = uses[0]
@@ -85,6 +107,12 @@ def classify_consumption(f, sy, i, t):
         return ("try", brk[0], cont[0], ct)
     if cc.endswith("Result::<T, E>::unwrap") or cc.endswith("Result::<T, E>::expect"):
         return ("unwrap", ct)
+    # `r.map_err(From::from)` returned as is: what `Ok(r?)` means
+    if cc.endswith("Result::<T, E>::map_err") and ct["dest"]["l"] == 0 and not ct["dest"]["p"] and k == 0 and len(ct["args"]) == 2:
+        fn = ct["args"][1]
+        if fn["k"] == "const" and ((fn.get("fn") or "") == "core::convert::From::from" or
+                                    ("as core::convert::From<" in (fn.get("txt") or "") and (fn.get("txt") or "").endswith(">::from"))):
+            return ("return",)
     return ("bad", "result of %s is passed to %s (not `?`, return or unwrap)" % (callee_of(t).split("::")[-1], cc))
 
 
@@ -196,6 +224,13 @@ def stream_common(ctx, prog):
         if names == ("<Continue>", "0") and r[0] == "call" and "branch" in r[1] and strip(r[2][0])[0] == "call" and "Generator::finalize" in strip(r[2][0])[1] and \
                 is_param(strip(strip(r[2][0])[2][0]), "generator"):
             good.append(e)
+    if not oks:
+        # `finalize(generator).map_err(From::from)` returned as is
+        for i, t in f.calls():
+            if t["dest"]["l"] == 0 and callee_of(t).endswith("Result::<T, E>::map_err"):
+                a0 = strip(sy.operand(t["args"][0]))
+                if a0[0] == "call" and "Generator::finalize" in a0[1] and is_param(strip(a0[2][0]), "generator"):
+                    oks, good = [a0], [a0]
     ctx.ob(R, "hash_stream_common: the only Ok value is the result of finalize(generator)", len(oks) == 1 and len(good) == 1,
            "Ok payloads: %s" % [show(e)[:80] for e in oks], f.loc())
     return len(found)
